@@ -99,60 +99,69 @@ impl Parse for Expr {
 fn is_moderately_nested(cursor: Cursor<'_>) -> bool {
     const LIMIT: usize = 64;
 
-    let mut levels = vec![cursor];
+    // Every open group, with the number of assignments (`a = b = ..`, which nest to the right
+    // without any delimiter) since its last `;`.
+    let mut levels = vec![(cursor, 0)];
     // Prefix operators (`!!!..`, `&&&..`, also `&'a &'a ..` in a type).
     let mut run = 0;
     // Prefix keywords taking an operand (`return return ..`, `break break ..`).
     let mut keyword_run = 0;
-    // Closure heads (`|a| |b| ..`), assignments (`a = b = ..`) and arrows (`fn() -> fn() -> ..`)
-    // nest to the right without any delimiter, up to the next `,` or `;`.
+    // Closures returning closures (`|a| |b| ..`: a head is closed where the next one opens) and
+    // arrows (`fn() -> fn() -> ..`) nest to the right as well.
     let mut right_nesting = 0;
-    let mut after_quote = false;
-    let mut after_joint_minus = false;
-    while let Some(cursor) = levels.pop() {
+    let mut previous = ' ';
+    let mut previous_is_joint = false;
+    while let Some((cursor, mut assignments)) = levels.pop() {
         let Some((tt, next)) = cursor.token_tree() else {
             continue;
         };
-        levels.push(next);
+        let mut inside = None;
         match tt {
             proc_macro2::TokenTree::Group(_) => {
-                if let Some((inside, _, _, _)) = cursor.any_group() {
-                    levels.push(inside);
-                }
+                inside = cursor.any_group().map(|(inside, _, _, _)| inside);
                 (run, keyword_run) = (0, 0);
-                (after_quote, after_joint_minus) = (false, false);
+                (previous, previous_is_joint) = (' ', false);
             }
             proc_macro2::TokenTree::Punct(p) => {
                 run += 1;
                 keyword_run = 0;
                 match p.as_char() {
-                    '|' | '=' => right_nesting += 1,
-                    '>' if after_joint_minus => right_nesting += 1,
-                    ',' | ';' => right_nesting = 0,
+                    '|' if previous == '|' => right_nesting += 2,
+                    '>' if previous == '-' && previous_is_joint => right_nesting += 1,
+                    // Not `==`, `!=`, `<=`, `>=` and `=>`.
+                    '=' if p.spacing() == proc_macro2::Spacing::Alone
+                        && !(previous_is_joint && matches!(previous, '=' | '!' | '<' | '>')) =>
+                    {
+                        assignments += 1;
+                    }
+                    ';' => assignments = 0,
                     _ => {}
                 }
-                after_quote = p.as_char() == '\'';
-                after_joint_minus =
-                    p.as_char() == '-' && p.spacing() == proc_macro2::Spacing::Joint;
+                previous = p.as_char();
+                previous_is_joint = p.spacing() == proc_macro2::Spacing::Joint;
             }
             proc_macro2::TokenTree::Ident(i)
                 if i == "return" || i == "break" || i == "yield" =>
             {
                 keyword_run += 1;
                 run = 0;
-                (after_quote, after_joint_minus) = (false, false);
+                (previous, previous_is_joint) = (' ', false);
             }
             // A lifetime doesn't end a run of `&`s.
-            proc_macro2::TokenTree::Ident(_) if after_quote => after_quote = false,
+            proc_macro2::TokenTree::Ident(_) if previous == '\'' => previous = ' ',
             _ => {
                 (run, keyword_run) = (0, 0);
-                (after_quote, after_joint_minus) = (false, false);
+                (previous, previous_is_joint) = (' ', false);
             }
+        }
+        levels.push((next, assignments));
+        if let Some(inside) = inside {
+            levels.push((inside, 0));
         }
         if levels.len() > LIMIT
             || run > LIMIT
             || keyword_run > LIMIT
-            || right_nesting > 4 * LIMIT
+            || right_nesting + levels.iter().map(|(_, n)| n).sum::<usize>() > 4 * LIMIT
         {
             return false;
         }
